@@ -133,6 +133,9 @@ C05_HISTORIES = [
     ([("L", {"items": [{"a": 1, "b": 2, "c": {"k": 1}}, {"a": 1, "b": 2, "c": {"k": 2}, "d": 3}]})],
      [("M", {"items": [{"a": 5, "b": 6, "c": {"k": 3}}], "more": {"a": 1, "b": 2, "c": {"k": 9}}})]),
     ([("N", {"node": {"v": 1, "next": {"v": 2, "next": {"v": 3, "next": None}}}})], [("N2", {"node": {"v": 4, "next": None}, "x": 1})]),
+    # registry level only: odd but legal JSON keys (empty, blank) holding objects, owners that are merged
+    ([("E", {"p": {"": {"k": 1}, "a": 1, "b": 2, "c": 3}, "q": {"": {"k": 2}, "a": 1, "b": 2, "c": 3}})], [("E2", {"r": {"": {"k": 3}, "a": 1, "b": 2, "c": 3, "d": 4}})]),
+    ([("S", {"p": {" ": {"k": 1}, "0": {"j": 1}, "a": 1, "b": 2}, "q": {" ": {"k": 2}, "0": {"j": 2}, "a": 1, "b": 2}})], [("S2", {"p": {" ": {"k": 5}, "a": 1, "b": 2, "z": 0}})]),
 ]
 
 
@@ -438,6 +441,9 @@ HIST_INPUTS = [
     ({"Root": [{"s": "a"}, {"s": "b"}]}, "attrs", "flat", {}),
     ({"Root": [{"s": "a"}, {"s": "b"}]}, "dataclasses", "flat", {"types_style": "literal_off"}),
     ({"Root": [{"s": "a"}, {"s": "b"}]}, "dataclasses", "flat", {}),
+    # unions with a member whose rendering depends on the framework / the literal limit
+    ({"Root": [{"v": 1, "w": [1, "x"]}, {"v": "open", "w": ["y"]}, {"v": "closed", "w": []}]}, "dataclasses", "flat", {}),
+    ({"Root": [{"v": {"k": 1}, "n": "1"}, {"v": "open", "n": 2.5}]}, "pydantic", "nested", {}),
     # explicit registries that are edited (a pseudo-type removed / a replacement added), and the module-level default registry
     ({"Root": [{"p": "1"}, {"p": "1.5"}]}, "attrs", "flat", {"registry": "no_float"}),
     ({"Root": [{"p": "1"}, {"p": "1.5"}, {"q": "true"}]}, "attrs", "flat", {"registry": "default"}),
@@ -510,7 +516,14 @@ def oracle_c14_rerender(i):
     if first != again:
         return f"rendering input {i} twice from one registry differs"
     for fw2 in ("attrs", "pydantic", "dataclasses"):
-        render(reg, fw2, "flat")
+        got2 = render(reg, fw2, "flat")
+        reg2, _gen2, _roots2 = infer(data)
+        if got2 != render(reg2, fw2, "flat"):
+            return f"input {i}: {fw2} rendered from a registry that {fw} rendered before differs from {fw2} rendered from a fresh registry"
+    for mx in (0, 1, 10):
+        reg3, _g3, _r3 = infer(data)
+        if render(reg, "pydantic", "flat", max_literals=mx) != render(reg3, "pydantic", "flat", max_literals=mx):
+            return f"input {i}: max_literals={mx} rendered from an already rendered registry differs from a fresh one"
     if render(reg, fw, layout, **kw) != first:
         return f"rendering input {i} after other frameworks/layouts differs from the first rendering"
     return None
@@ -697,6 +710,22 @@ def replay(w):
     msg = ORACLES[w["replay"]["oracle"]](w["input"])
     print("replay:", "violated: " + msg if msg else "held")
     return 1 if msg else 0
+
+
+@bounded("C06", "same_call_again_in_one_process")
+def c06_repeat(tier, seed):
+    """'a deterministic function of inputs and options' also within one process: a call, an unrelated call with other options, the
+    first call again - all equal to what the call gives in a fresh process"""
+    n = len(HIST_INPUTS)
+    overriding = [j for j in range(n) if HIST_INPUTS[j][3]]
+    seqs = [(i, j, i) for i in range(n) for j in overriding if i != j]
+    if tier == "quick":
+        rng = random.Random(seed)
+        seqs = [s_ for s_ in seqs if s_[0] % 2 == 0 or rng.random() < 0.25]
+    r = run_cases(seqs, oracle_c14, "c14")
+    r["bound"] = f"{len(seqs)} triples (call, call with overriding options, first call again) over {n} generation calls, each compared with a fresh process"
+    r["function"] = "whole pipeline within one process"
+    return r
 
 
 # ------------------------------------------------------------------------------------------------ C14: a CLI run followed by library calls
